@@ -21,6 +21,7 @@ func init() {
 			"values singly, pairs around structural bytes, random byte strings incl. delimiters, quotes, CR/LF, the five bytes undefined in windows-1252 " +
 			"and EF BB BF). For X in {iso-8859-1, windows-1252}: transcript(bytes, encoding=X) must equal transcript(harness_utf8_X(bytes), encoding=utf-8) " +
 			"and transcript with encoding omitted. BOM: transcript(EF BB BF + input) must equal transcript(input), also under one-byte delivery. " +
+			"A sixth of the inputs are bulk (150-600 records): dense in bytes with 2- and 3-byte UTF-8 forms, or beginning with several buffers of pure ASCII. " +
 			"distinct = digest(input bytes, encoding); non-trivial = payload contains a byte >= 0x80.",
 		Assumptions: []string{
 			"the harness's own conversion tables (Latin-1 identity; hand-written WHATWG windows-1252 table for 0x80-0x9F) define 'the standard code page'",
